@@ -30,7 +30,7 @@ CLAIMS = {
         "confirm that every source value survives T->U->T. The integer range proof is checked on boundary intervals for every integer type pair, its pass-through operator set must be value-set preserving, "
         "the Range closed form must bound every emitted value for all (start, limit, delta) in a bounded box, and the Cast->Cast rewrite must be "
         "dominated by `next_target == src_dtype` and the decision called with (source dtype, first target). Exhaustive on the decision function's finite domain.",
-        "Not decided: the Range closed form outside the enumerated box [-7,7]^2 x [-4,4], ONNX Runtime's actual Cast semantics (saturation, NaN payload), string types "
+        "Not decided: the Range closed form outside the enumerated box (quick: [-7,7]^2 x [-4,4]; thorough: [-40,40]^2 plus the int8/int16 boundary values x [-9,9]), ONNX Runtime's actual Cast semantics (saturation, NaN payload), string types "
         "(STRING/UNDEFINED: a True decision there is UNRESOLVED; float8 / float4 / e8m0 are decided from value sets enumerated from their bit layouts). Trusted: onnx_ir.DataType member facts, the frozen IEEE parameter table and low-bit layout table, the restricted evaluator (unsupported syntax -> UNRESOLVED).",
         "DESIGN.md §3 C17",
     ),
